@@ -640,7 +640,7 @@ impl Replayer {
                         self.w.parties.get_mut(&p).unwrap().group = Some(g);
                         // a group joined through a Welcome and given up before it was ever written keeps its key package
                         self.w.joined_with.remove(&p);
-                        self.w.commits.push(CommitEntry { by: p.clone(), welcomes: vec![], msg, tree: tree_bytes, base_epoch });
+                        self.w.commits.push(CommitEntry { by: p.clone(), welcomes: vec![], msg, tree: tree_bytes, base_epoch, forged: vec![] });
                         epoch_changed = true;
                         "ok".into()
                     }
@@ -1134,30 +1134,28 @@ impl Replayer {
             .iter()
             .map(|it| if s(it, "kind") == "add" { Some(self.w.kps[u(it, "kp") as usize - 1].msg.clone()) } else { None })
             .collect();
-        let mark = self.w.rec.len();
         let suite = self.w.suite;
+        // C03 insider model: the same member, from the same state and proposals, builds structurally invalid commits
+        // (verif_tamper_next_commit hook); they are offered to every receiver before the authentic commit
+        let mut forged: Vec<(String, MlsMessage)> = vec![];
+        if (self.tamper > 0 || self.tamper_exhaustive) && want == "ok" && !detached {
+            self.w.rec.set(false, false);
+            for kind in ["path-short", "path-empty", "path-long", "path-foreign-key", "path-no-ciphertexts", "stale-confirmation-tag"] {
+                let mut c = self.w.parties[p].group.as_ref().unwrap().clone();
+                c.verif_tamper_next_commit(kind);
+                let kps2 = kps.clone();
+                let r = std::panic::catch_unwind(std::panic::AssertUnwindSafe(|| build_commit(&mut c, &byval, kps2, suite, false)));
+                if let Ok(Ok((o, _))) = r {
+                    if o.contains_update_path || kind == "stale-confirmation-tag" { forged.push((kind.to_string(), o.commit_message)); }
+                }
+            }
+            self.w.rec.set(true, false);
+        }
+        let mark = self.w.rec.len();
         let party = self.w.parties.get_mut(p).unwrap();
         let g = party.group.as_mut().unwrap();
         let base_epoch = g.current_epoch();
-        let r = (|| {
-            let mut b = g.commit_builder();
-            for (it, kp) in byval.iter().zip(kps.into_iter()) {
-                b = match s(it, "kind") {
-                    "psk" => b.add_external_psk(mls_rs::psk::ExternalPskId::new(s(it, "id").as_bytes().to_vec()))?,
-                    "rpsk" => b.add_resumption_psk(u(it, "epoch"))?,
-                    "gce" => b.set_group_context_ext(gce_list(u(it, "ver")))?,
-                    "custom" => b.custom_proposal(custom_proposal(u(it, "ver"))),
-                    "reinit" => b.reinit(Some(b"verif-group-next".to_vec()), mls_rs::ProtocolVersion::MLS_10, suite, Default::default())?,
-                    "add" => b.add_member(kp.unwrap())?,
-                    "rem" => b.remove_member(u(it, "target") as u32).map_err(|e| match e {
-                        mls_rs::error::MlsError::ExpectedNode | mls_rs::error::MlsError::InvalidNodeIndex(_) => mls_rs::error::MlsError::RemovingNonExistingMember,
-                        e => e,
-                    })?,
-                    k => panic!("by-value kind {k}"),
-                };
-            }
-            if detached { b.build_detached().map(|(o, s)| (o, Some(s))) } else { b.build().map(|o| (o, None)) }
-        })();
+        let r = build_commit(g, &byval, kps, suite, detached);
         let evs = self.w.rec.since(mark);
         match r {
             Err(e) => classify(&e),
@@ -1214,7 +1212,7 @@ impl Replayer {
                     }
                     self.w.bump("commit_recipient_checks");
                 }
-                self.w.commits.push(CommitEntry { by: p.to_string(), welcomes: o.welcome_messages.clone(), msg, tree, base_epoch });
+                self.w.commits.push(CommitEntry { by: p.to_string(), welcomes: o.welcome_messages.clone(), msg, tree, base_epoch, forged });
                 "ok".into()
             }
         }
@@ -1317,6 +1315,32 @@ impl Replayer {
             }
             if !self.viols.is_empty() {
                 return;
+            }
+        }
+        // insider forgeries of this commit (structurally invalid, consistently signed by its author)
+        if a == "DeliverCommit" {
+            let forged = self.w.commits[u(args, "commit") as usize - 1].forged.clone();
+            for (kind, fm) in forged {
+                let mut g = g0.clone();
+                let r = std::panic::catch_unwind(std::panic::AssertUnwindSafe(|| g.process_incoming_message(fm)));
+                match r {
+                    Err(_) => viol!(self, ["C03"], "insider-panic", "{p}: processing a commit whose author made it structurally invalid ({kind}) panicked"),
+                    // a member that the commit removes only learns of its removal: it neither validates nor applies the path
+                    Ok(Ok(ReceivedMessage::Commit(d))) if matches!(d.effect, CommitEffect::Removed { .. }) => self.w.bump("insider_removal_notice"),
+                    Ok(Ok(res)) => viol!(self, ["C03"], "insider-accepted", "{p}: a structurally invalid commit signed by its author ({kind}) was accepted: {}", format!("{res:?}").chars().take(100).collect::<String>()),
+                    Ok(Err(_)) => {
+                        let after = g.verif_state();
+                        let gs = self.w.parties[p].gs.clone();
+                        let gid = self.w.gid.clone();
+                        let cached = after.pending_updates_only_cached(&before, |id| gs.peek_epoch(&gid, id));
+                        let d: Vec<_> = before.diff(&after).into_iter().filter(|c| !(*c == "repo_updates" && cached)).collect();
+                        if !d.is_empty() {
+                            viol!(self, ["C04", "C03"], "insider-changed-state", "{p}: rejecting a structurally invalid commit of its author ({kind}) changed {d:?}");
+                        }
+                        self.w.bump(&format!("insider_rejected:{kind}"));
+                    }
+                }
+                if !self.viols.is_empty() { return; }
             }
         }
         self.w.bump(&format!("tamper_probes:{a}"));
@@ -1483,6 +1507,28 @@ thread_local! {
 }
 pub const CUSTOM_PROPOSAL: u16 = 0xF0F1;
 pub const GCE_EXT: mls_rs::extension::ExtensionType = mls_rs::extension::ExtensionType::new(0xF0F0);
+
+/// CommitBuilder calls for the by-value proposals of a model commit
+pub fn build_commit(g: &mut mls_rs::Group<Cfg>, byval: &[Value], kps: Vec<Option<MlsMessage>>, suite: mls_rs::CipherSuite, detached: bool)
+    -> Result<(mls_rs::group::CommitOutput, Option<mls_rs::group::CommitSecrets>), mls_rs::error::MlsError> {
+    let mut b = g.commit_builder();
+    for (it, kp) in byval.iter().zip(kps.into_iter()) {
+        b = match s(it, "kind") {
+            "psk" => b.add_external_psk(mls_rs::psk::ExternalPskId::new(s(it, "id").as_bytes().to_vec()))?,
+            "rpsk" => b.add_resumption_psk(u(it, "epoch"))?,
+            "gce" => b.set_group_context_ext(gce_list(u(it, "ver")))?,
+            "custom" => b.custom_proposal(custom_proposal(u(it, "ver"))),
+            "reinit" => b.reinit(Some(b"verif-group-next".to_vec()), mls_rs::ProtocolVersion::MLS_10, suite, Default::default())?,
+            "add" => b.add_member(kp.unwrap())?,
+            "rem" => b.remove_member(u(it, "target") as u32).map_err(|e| match e {
+                mls_rs::error::MlsError::ExpectedNode | mls_rs::error::MlsError::InvalidNodeIndex(_) => mls_rs::error::MlsError::RemovingNonExistingMember,
+                e => e,
+            })?,
+            k => panic!("by-value kind {k}"),
+        };
+    }
+    if detached { b.build_detached().map(|(o, s)| (o, Some(s))) } else { b.build().map(|o| (o, None)) }
+}
 
 /// An application-defined proposal of the type every harness client supports (no effect, no path required).
 pub fn custom_proposal(ver: u64) -> mls_rs::group::proposal::CustomProposal {
